@@ -149,8 +149,9 @@ class Stop(Exception):
     pass
 
 
-def run_main(argv, stdin_bytes):
-    """Run bits.__main__.main() in-process.  -> dict(obs=..., out=bytes, ret=..., exit=...)"""
+def run_main(argv, stdin_bytes, rpc=None):
+    """Run bits.__main__.main() in-process.  -> dict(obs=..., out=bytes, ret=..., exit=...)
+    rpc: optional replacement for bits.rpc.rpc_method (default: a stub that records its keyword arguments and stops)."""
     import bits
     import bits.__main__ as bm
     import bits.rpc as brpc
@@ -207,7 +208,7 @@ def run_main(argv, stdin_bytes):
     patch(bu, "wif_encode", wif_encode)
     patch(bits, "to_bitcoin_address", to_bitcoin_address)
     patch(b32, "root_serialized_extended_key", root_ser)
-    patch(brpc, "rpc_method", rpc_method)
+    patch(brpc, "rpc_method", rpc if rpc is not None else rpc_method)
     patch(bm, "getpass", lambda prompt="": "")
     old = (sys.argv, sys.stdin, sys.stdout, sys.stderr)
     inb, outb, errb = _Keep(stdin_bytes), _Keep(), _Keep()
